@@ -64,7 +64,7 @@ package util
 //@   ensures fsex(keypath(f, key)) == old(fsex(keypath(f, key))) && fsdata(keypath(f, key)) == old(fsdata(keypath(f, key)))
 //@   ensures err == nil ==> file != nil && fresh(file) && fpath(file) == keypath(f, key) && foff(file) == 0 && fsex(keypath(f, key))
 //@   ensures err != nil ==> file == nil
-//@   ensures !fsex(keypath(f, key)) ==> err != nil
+//@   ensures fsex(keypath(f, key)) == (err == nil)
 
 // Set(k, v): afterwards the key holds exactly v (C18); at every point between two file-system effects the key's file holds
 // either its previous or the new content and every other file except the key's temporary file is untouched (C19).
@@ -90,7 +90,7 @@ package util
 //@   modifies fsex(keypath(f, key)), fsdata(keypath(f, key))
 //@   ensures same: fsex(keypath(f, key)) == old(fsex(keypath(f, key))) && fsdata(keypath(f, key)) == old(fsdata(keypath(f, key)))
 //@   ensures found: err == nil ==> fsex(keypath(f, key)) && seq(b) == fsdata(keypath(f, key))
-//@   ensures missing: !old(fsex(keypath(f, key))) ==> err != nil
+//@   ensures missing: old(fsex(keypath(f, key))) == (err == nil)
 //@   loop 0
 //@     invariant file: file != nil && fpath(file) == keypath(f, key) && 0 <= foff(file) && foff(file) <= len(fsdata(keypath(f, key)))
 //@     invariant read: stream(addr(b)) == sub(fsdata(keypath(f, key)), 0, foff(file))
@@ -112,7 +112,7 @@ package util
 //@   fresh b
 //@   pure
 //@   ensures found: err == nil ==> stex(s, key) && seq(b) == stval(s, key)
-//@   ensures missing: !stex(s, key) ==> err != nil
+//@   ensures missing: stex(s, key) == (err == nil)
 //@ invoke "github.com/brutella/hc/util.Storage.Delete"(s, key) (err)
 //@   modifies stex(s, key)
 //@   ensures err == nil ==> !stex(s, key)
@@ -120,3 +120,28 @@ package util
 //@ invoke "github.com/brutella/hc/util.Storage.KeysWithSuffix"(s, suffix) (keys, err)
 //@   fresh keys
 //@   pure
+
+// ---------------------------------------------------------------- setup URI (C20)
+// The payload P packs code (27 bits), flags (4 bits) and category (8 bits); the 9 base-36 digits of P follow X-HM://.
+//@ pred base36OK() = len(base36) == 36 && base36[0] == "0" && base36[1] == "1" && base36[2] == "2" && base36[3] == "3" && base36[4] == "4" && base36[5] == "5" && base36[6] == "6" && base36[7] == "7" && base36[8] == "8" && base36[9] == "9" && base36[10] == "A" && base36[11] == "B" && base36[12] == "C" && base36[13] == "D" && base36[14] == "E" && base36[15] == "F" && base36[16] == "G" && base36[17] == "H" && base36[18] == "I" && base36[19] == "J" && base36[20] == "K" && base36[21] == "L" && base36[22] == "M" && base36[23] == "N" && base36[24] == "O" && base36[25] == "P" && base36[26] == "Q" && base36[27] == "R" && base36[28] == "S" && base36[29] == "T" && base36[30] == "U" && base36[31] == "V" && base36[32] == "W" && base36[33] == "X" && base36[34] == "Y" && base36[35] == "Z"
+//@ spec func parseuint(str) int
+//@ func XHMURI(pincode, setupId, categoryId, flags) (uri, err)
+//@   requires base36OK() && len(flags) == 1
+//@   pure
+//@   let P = parseuint(strdel(pincode, "-")) % 134217728 + (flags[0] % 16) * 134217728 + categoryId * 2147483648
+//@   ensures uri: err == nil ==> uri == "X-HM://" + (base36[(P / 2821109907456) % 36] + base36[(P / 78364164096) % 36] + base36[(P / 2176782336) % 36] + base36[(P / 60466176) % 36] + base36[(P / 1679616) % 36] + base36[(P / 46656) % 36] + base36[(P / 1296) % 36] + base36[(P / 36) % 36] + base36[(P / 1) % 36]) + setupId
+//@   ensures fits: 0 <= P && P < 101559956668416
+//@   loop 0
+//@     invariant idx: 0 <= loopidx && loopidx <= 1 && len(flags) == 1 && mergedFlags == ite(loopidx == 0, 0, flags[0])
+//@   loop 1
+//@     invariant ii: 0 <= ii && ii <= 9 && len(setup_payload) == 9 && base36OK()
+//@     invariant pay: (ii == 0 && payload == P / 1) || (ii == 1 && payload == P / 36) || (ii == 2 && payload == P / 1296) || (ii == 3 && payload == P / 46656) || (ii == 4 && payload == P / 1679616) || (ii == 5 && payload == P / 60466176) || (ii == 6 && payload == P / 2176782336) || (ii == 7 && payload == P / 78364164096) || (ii == 8 && payload == P / 2821109907456) || (ii == 9 && payload == P / 101559956668416)
+//@     invariant d0: ii > 0 ==> setup_payload[8] == base36[(P / 1) % 36]
+//@     invariant d1: ii > 1 ==> setup_payload[7] == base36[(P / 36) % 36]
+//@     invariant d2: ii > 2 ==> setup_payload[6] == base36[(P / 1296) % 36]
+//@     invariant d3: ii > 3 ==> setup_payload[5] == base36[(P / 46656) % 36]
+//@     invariant d4: ii > 4 ==> setup_payload[4] == base36[(P / 1679616) % 36]
+//@     invariant d5: ii > 5 ==> setup_payload[3] == base36[(P / 60466176) % 36]
+//@     invariant d6: ii > 6 ==> setup_payload[2] == base36[(P / 2176782336) % 36]
+//@     invariant d7: ii > 7 ==> setup_payload[1] == base36[(P / 78364164096) % 36]
+//@     invariant d8: ii > 8 ==> setup_payload[0] == base36[(P / 2821109907456) % 36]
